@@ -2,7 +2,7 @@
 """Run the registered quick (or thorough) check of a seeded change's property against a scratch copy of
 /repo with the change applied (VERIF_REPO), never touching /repo.
 
-    tools/seedcheck.py seeded/<id> [--tier quick|thorough] [--runs N] [--all-props]
+    tools/seedcheck.py seeded/<id> [--tier quick|thorough] [--runs N] [--all-props] [--prop Cxx] [--no-shrink] [--verify-replay]
 """
 import json
 import os
@@ -57,6 +57,18 @@ def main():
             if out.returncode not in (0, 1):
                 print(out.stderr[-800:])
             rc_all = max(rc_all, out.returncode)
+            if "--verify-replay" in args:
+                # every replay file the check just wrote must reproduce its violation in a fresh process
+                for ln in out.stdout.splitlines():
+                    if ln.startswith("VIOLATION property="):
+                        path = ln.split("replay=", 1)[1].strip()
+                        r2 = subprocess.run([sys.executable, "-m", "dst", p, "--replay", path], cwd=VERIF, env=env,
+                                            capture_output=True, text=True)
+                        tail = [x for x in r2.stdout.splitlines() if x.strip()][-1:] or [""]
+                        print(f"    replay {os.path.basename(path)} rc={r2.returncode} {tail[0][:160]}")
+                        if r2.returncode != 1 or "event digest identical" not in r2.stdout:
+                            print("    REPLAY NOT EXACT")
+                            rc_all = 2
         return rc_all
     finally:
         subprocess.run(["git", "-C", "/repo", "worktree", "remove", "--force", tmp + "/wt"])
